@@ -4,6 +4,7 @@ import (
 	"bytes"
 	"fmt"
 	"go/ast"
+	"go/printer"
 	"go/token"
 	"path/filepath"
 	"strconv"
@@ -112,6 +113,75 @@ func namesEmitStringList(w *bytes.Buffer, name string, xs []string) {
 	fmt.Fprintf(w, "Definition %s : list string := [%s].\n", name, strings.Join(qs, "; "))
 }
 
+// source text of a node, white space collapsed
+func nodeText(p *pkg, n ast.Node) string {
+	var b bytes.Buffer
+	if err := printer.Fprint(&b, p.fset, n); err != nil {
+		die("cannot print node: %v", err)
+	}
+	return strings.Join(strings.Fields(b.String()), " ")
+}
+
+// does the expression mention a selector .<name> ?
+func mentionsSel(e ast.Node, name string) bool {
+	found := false
+	ast.Inspect(e, func(n ast.Node) bool {
+		if se, ok := n.(*ast.SelectorExpr); ok && se.Sel.Name == name {
+			found = true
+		}
+		return true
+	})
+	return found
+}
+
+// The statements that decide in which order existing files enter the index at start-up:
+//   - every statement of scanDir that assigns to a `.ts` field (the sort key of a scanned file);
+//   - the body of scanResult.Less (the comparison) and of scanResult.Swap;
+//   - in loadExistingFiles: the sort call(s) and the loop that calls c.lru.Add.
+func genLoadOrder(w *bytes.Buffer) {
+	p := load("cache/disk")
+	scan := p.findFunc("diskCache", "scanDir")
+	var ts []string
+	ast.Inspect(scan.Body, func(n ast.Node) bool {
+		if as, ok := n.(*ast.AssignStmt); ok {
+			for _, l := range as.Lhs {
+				if mentionsSel(l, "ts") {
+					ts = append(ts, nodeText(p, as))
+					break
+				}
+			}
+		}
+		return true
+	})
+	fmt.Fprintf(w, "(* %s: scanDir, assignments to the sort key *)\n", p.fset.Position(scan.Pos()).String()[len(repo)+1:])
+	namesEmitStringList(w, "scanDir_ts_assign", ts)
+	less := p.findFunc("scanResult", "Less")
+	swap := p.findFunc("scanResult", "Swap")
+	fmt.Fprintf(w, "Definition scanResult_Less_body : string := %s.\n", coqString(nodeText(p, less.Body)))
+	fmt.Fprintf(w, "Definition scanResult_Swap_body : string := %s.\n", coqString(nodeText(p, swap.Body)))
+	lef := p.findFunc("diskCache", "loadExistingFiles")
+	var sorts, loops []string
+	ast.Inspect(lef.Body, func(n ast.Node) bool {
+		switch x := n.(type) {
+		case *ast.CallExpr:
+			if strings.HasPrefix(callName(x), "sort.") || strings.HasPrefix(callName(x), "slices.") {
+				sorts = append(sorts, nodeText(p, x))
+			}
+		case *ast.ForStmt:
+			if mentionsSel(x.Body, "Add") {
+				loops = append(loops, nodeText(p, x))
+			}
+		case *ast.RangeStmt:
+			if mentionsSel(x.Body, "Add") {
+				loops = append(loops, nodeText(p, x))
+			}
+		}
+		return true
+	})
+	namesEmitStringList(w, "loadExistingFiles_sort", sorts)
+	namesEmitStringList(w, "loadExistingFiles_add_loop", loops)
+}
+
 func genNames(out string) {
 	var w bytes.Buffer
 	w.WriteString(header)
@@ -147,5 +217,6 @@ func genNames(out string) {
 			namesEmitStringList(&w, it.coq+"_"+r, c.role[r])
 		}
 	}
+	genLoadOrder(&w)
 	writeIfChanged(filepath.Join(out, "Names.v"), w.Bytes())
 }
